@@ -443,6 +443,19 @@ def main():
     except Exception as e:
         status['fwd'] = 'failed: %s' % e
     try:
+        import histtrans
+        g8 = dict(golden)
+        txt, hst = histtrans.lean_file(g8)
+        changed |= write_if_changed(os.path.join(GEN, 'HistGen.lean'), txt)
+        for k_, v_ in hst.items():
+            status['functions'][k_] = dict(v_, lean='Hist.' + k_[5:], params=[], bools=[], selfattrs=[], absparams=[], nret=1, abscalls=[])
+        if update:
+            for k_, v_ in g8.items():
+                if k_.startswith('hist:'):
+                    golden[k_] = v_
+    except Exception as e:
+        status['hist'] = 'failed: %s' % e
+    try:
         import cachesites
         txt, sites = cachesites.lean_table(os.environ.get('IXPE_REPO', os.path.dirname(os.path.dirname(importlib.import_module('ixpeobssim').__file__))))
         changed |= write_if_changed(os.path.join(GEN, 'CacheSites.lean'), txt)
